@@ -201,7 +201,9 @@ class SeqProcess(SeqThread):
     own primitives are).  What the child does to files is, of course, visible."""
 
     def start(self, eng):
-        self.args = tuple(ExcQueue() if isinstance(a, ExcQueue) else a for a in self.args)
+        from vf.harness.session import Queue as _PlainQueue
+
+        self.args = tuple(ExcQueue() if isinstance(a, ExcQueue) else (_PlainQueue() if isinstance(a, _PlainQueue) else a) for a in self.args)
         return SeqThread.start(self, eng)
 
 
